@@ -1,5 +1,6 @@
 import DaeVerif.C01.Model
 import DaeVerif.C01.Position
+import DaeVerif.C01.Encoding
 import DaeVerif.Compose.Model
 import DaeVerif.Common.Proto
 /-!
@@ -150,6 +151,18 @@ def pPkt (ts : List String) : Option Pkt := do
     pure ⟨src, dst, ← sp.toNat?, ← dp.toNat?, ← ipv.toNat?, ← l4.toNat?, pn, ← dscp.toNat?, mac, dom⟩
   | _ => none
 
+/-- raw `Route` arguments: `<srcIs4> <srchex> <dstIs4> <dsthex> sport dport l4 pname dscp mac6hex dom` -/
+def pRoute (ts : List String) : Option RouteArgs := do
+  match ts with
+  | [s4, src, d4, dst, sp, dp, l4, pn, dscp, mac, dom] =>
+    let src ← hexToNat? src
+    let dst ← hexToNat? dst
+    let pn ← hexToBytes? pn
+    let mac ← hexToNat? mac
+    let dom := if dom = "-" then [] else dom.toList.map (· == '1')
+    pure ⟨s4 == "1", src, d4 == "1", dst, ← sp.toNat?, ← dp.toNat?, ← l4.toNat?, pn, ← dscp.toNat?, mac, dom⟩
+  | _ => none
+
 /-- diagnostics only (evidence: which rule decided); not part of any theorem -/
 def hitIndex (p : Pkt) : List SRule → Nat → Option Nat
   | [], _ => none
@@ -172,6 +185,37 @@ def outStr : Option Out → String
   | some o => s!"out={o.outbound} mark={o.mark} must={boolStr o.must}"
   | none => "err"
 
+/-- optional trailing `N <namehex|-> <rxid,rxid,..|->`: the packet's domain name and the regex
+patterns Go's regexp matched, for the composed (real domain matcher) path -/
+def splitName (ts : List String) : List String × Option (String × String) :=
+  match ts.reverse with
+  | rx :: nm :: "N" :: rest => (rest.reverse, some (nm, rx))
+  | _ => (ts, none)
+
+def evalPkt (st : St) (p : Pkt) (nameTok : Option (String × String)) : String :=
+  let real : String := match nameTok, st.built with
+    | some (nm, rx), some b =>
+      if nm = "-" then "" else
+      match hexToBytes? nm with
+      | some name =>
+        let rxHits := if rx = "-" then [] else (rx.splitOn ",").filterMap String.toNat?
+        let r := matchWithBuilt b ⟨st.rules, st.fb, st.groups⟩ p name rxHits
+        if r == matchAt st.rules st.fb p then "" else " REAL-MATCHER-DIFFERS " ++ outStr r
+      | none => " bad-name"
+    | _, _ => ""
+  -- the compiled-level scan by position (as the code runs it), the byte-encoded loop and the
+  -- source-level specification are all evaluated; they are proved equal
+  -- (Props.match_by_position_is_first_match, Props.match_bytes_is_first_match); the driver prints the
+  -- scan and flags any difference
+  let a := matchAt st.rules st.fb p
+  let b := firstMatchS p st.rules st.fb false
+  let c := matchBytes st.rules st.fb p
+  let d := if st.diag then (match hitIndex p st.rules 0 with
+    | some i => s!" hit={i}/{st.rules.length}"
+    | none => s!" hit=fb/{st.rules.length}") else ""
+  outStr a ++ (if a == some b then "" else " SPEC-DIFFERS " ++ outStr (some b))
+    ++ (if c == a then "" else " BYTES-DIFFER " ++ outStr c) ++ real ++ d
+
 def step (st : St) (line : String) : St × String :=
   match words line with
   | "prog" :: ts =>
@@ -184,35 +228,22 @@ def step (st : St) (line : String) : St × String :=
         let built := match (C11.Matcher.replay 1024 (addCalls P)).build with
           | .ok b => some b
           | .error _ => none
-        ({ st with prog := prog, rules := rules, fb := fb, groups := groups, built := built }, "ok")
+        -- `BuildUserspace` fails exactly when the domain matcher cannot be built: a domain key group
+        -- registered at a position beyond the match-set limit (or a pattern outside its alphabet)
+        ({ st with prog := prog, rules := rules, fb := fb, groups := groups, built := built },
+          if built.isSome then "ok" else "err:build")
       | _ => (st, "bad-op")
     | _ => (st, "bad-op")
   | "pkt" :: ts =>
-    -- optional trailing `N <namehex|-> <rxid,rxid,..|->`: the packet's domain name and the regex
-    -- patterns Go's regexp matched, for the composed (real domain matcher) path
-    let (ts, nameTok) := match ts.reverse with
-      | rx :: nm :: "N" :: rest => (rest.reverse, some (nm, rx))
-      | _ => (ts, none)
+    let (ts, nameTok) := splitName ts
     match pPkt ts with
-    | some p =>
-      let real : String := match nameTok, st.built with
-        | some (nm, rx), some b =>
-          if nm = "-" then "" else
-          match hexToBytes? nm with
-          | some name =>
-            let rxHits := if rx = "-" then [] else (rx.splitOn ",").filterMap String.toNat?
-            let r := matchWithBuilt b ⟨st.rules, st.fb, st.groups⟩ p name rxHits
-            if r == matchAt st.rules st.fb p then "" else " REAL-MATCHER-DIFFERS " ++ outStr r
-          | none => " bad-name"
-        | _, _ => ""
-      -- both the compiled-level scan and the source-level specification are evaluated; they are
-      -- proved equal (Props.match_is_first_match), the driver prints the scan and flags any difference
-      let a := matchAt st.rules st.fb p   -- incremental build + evaluation by position, as the code does
-      let b := firstMatchS p st.rules st.fb false
-      let d := if st.diag then (match hitIndex p st.rules 0 with
-        | some i => s!" hit={i}/{st.rules.length}"
-        | none => s!" hit=fb/{st.rules.length}") else ""
-      (st, outStr a ++ (if a == some b then "" else " SPEC-DIFFERS " ++ outStr (some b)) ++ real ++ d)
+    | some p => (st, evalPkt st p nameTok)
+    | none => (st, "bad-op")
+  | "rpkt" :: ts =>
+    -- a packet given as the raw arguments of `ControlPlane.Route`: the marshalling is the model's
+    let (ts, nameTok) := splitName ts
+    match pRoute ts with
+    | some a => (st, evalPkt st (pktOfRoute a) nameTok)
     | none => (st, "bad-op")
   | ["route", is4, dst] =>
     match hexToNat? dst with
